@@ -342,10 +342,17 @@ def rc_check(prop, tier, spec, replay=None):
     nreg = 0
     for rfile in regs:
         nreg += 1
-        rc, out = replay_rc(exe, prop, rfile, {k: v for k, v in extra_env.items() if k != "VERIF_EXCLUDE"})
-        if rc == 0:
-            continue
         e = known_repro.get(os.path.abspath(rfile))
+        attempts = int(e.get("attempts", 1)) if e is not None else 1
+        rc, out = 0, ""
+        for _ in range(attempts):  # a known finding may be schedule-dependent: try until it shows
+            rc, out = replay_rc(exe, prop, rfile, {k: v for k, v in extra_env.items() if k != "VERIF_EXCLUDE"})
+            if rc != 0:
+                break
+        if rc == 0:
+            if e is not None and attempts > 1:
+                known_lines.append("KNOWN-FINDING: property=%s %s (schedule-dependent: did not show in %d attempts of this run)" % (prop, e["what"], attempts))
+            continue
         if e is not None and rc in (1, 99):
             known_lines.append("KNOWN-FINDING: property=%s %s" % (prop, e["what"]))
         else:
